@@ -126,6 +126,8 @@ ApiObs(ev) ==
     [] op = "clone_push"   -> R(b, OVec(Append(b, a.bit)))
     \* write() to a writer that fails after a.n bytes: the error is propagated, nothing panics
     [] op = "write_fail"   -> R(b, IF a.n < NumBytes(n) THEN OErrIo ELSE OBytes(ToBytes(b, a.e)))
+    \* write() to a writer that accepts at most a.n bytes per call: everything arrives, in order
+    [] op = "write_chunk"  -> R(b, OBytes(ToBytes(b, a.e)))
     \* Display of a Bit is "0" / "1"; Debug of a vector and Display of the error type never panic
     [] op = "bit_display"  -> R(b, OStr(IF a.bit = 1 THEN <<"1">> ELSE <<"0">>))
     [] op = "debug_fmt"    -> R(b, OBool(TRUE))
@@ -136,7 +138,7 @@ ApiObs(ev) ==
 ObsOps == {"len", "is_empty", "get", "first", "last", "to_vec", "write", "is_zero",
            "leading_zeros", "leading_ones", "trailing_zeros", "trailing_ones",
            "significant_bits", "fmt", "to_int", "convert", "new_inner", "iter_collect",
-           "clone", "hs_contains", "bit_from_int", "bit_to_int", "clone_push", "write_fail",
+           "clone", "hs_contains", "bit_from_int", "bit_to_int", "clone_push", "write_fail", "write_chunk",
            "bit_display", "debug_fmt", "err_display", "bvd_new"} \cup CmpOps
 
 (***************************************************************************)
